@@ -72,6 +72,7 @@ type genSt struct {
 	ops      int
 	ro       bool
 	high     map[int]uint64
+	waiter   int // saver blocked in saveLock.Lock() (0 = none)
 }
 
 const prefixHex = "5f636f6e6e6563746f723a6362676f3a"
@@ -334,7 +335,19 @@ func (g *genSt) micro() {
 	switch g.savers[k] {
 	case "wantLock":
 		if g.lock {
+			// one saver may be let go on into the held lock: it has to block there
+			if g.waiter == 0 && r.Chance(60) {
+				if g.do(fmt.Sprintf("sv %d lockwait", k)) == "waiting" {
+					g.waiter = k
+				} else {
+					delete(g.savers, k) // it did not wait (property broken): that saver is gone
+				}
+				g.tags["sv.lockwait"] = true
+			}
 			return
+		}
+		if g.waiter != 0 && g.waiter != k {
+			return // the blocked saver got the lock when it was released; it dumps first
 		}
 		g.do(fmt.Sprintf("sv %d dump", k))
 		g.savers[k] = "dumped"
@@ -347,13 +360,30 @@ func (g *genSt) micro() {
 		} else {
 			delete(g.savers, k)
 			g.lock = false
+			g.afterRelease()
 		}
 	case "stored":
 		g.do(fmt.Sprintf("sv %d unmark", k))
 		delete(g.savers, k)
 		g.lock = false
+		g.afterRelease()
 		g.tags["sv.unmark"] = true
 	}
+}
+
+// the saver blocked in saveLock.Lock() takes the lock the moment the holder returns and dumps at once
+func (g *genSt) afterRelease() {
+	if g.waiter == 0 {
+		return
+	}
+	k := g.waiter
+	g.waiter = 0
+	if _, ok := g.savers[k]; !ok {
+		return
+	}
+	g.do(fmt.Sprintf("sv %d dump", k))
+	g.savers[k] = "dumped"
+	g.lock = true
 }
 
 func (g *genSt) save2() {
@@ -384,6 +414,7 @@ func (g *genSt) drainSavers(keepStored bool) {
 				if g.e.savers[k] == nil {
 					delete(g.savers, k)
 					g.lock = false
+					g.afterRelease()
 				} else {
 					g.savers[k] = "stored"
 				}
@@ -395,6 +426,7 @@ func (g *genSt) drainSavers(keepStored bool) {
 				g.do(fmt.Sprintf("sv %d unmark", k))
 				delete(g.savers, k)
 				g.lock = false
+				g.afterRelease()
 				progressed = true
 			case "wantLock":
 				if g.lock {
@@ -532,7 +564,11 @@ func (g *genSt) life() {
 	if r.Chance(55) {
 		// crash: savers inside the store call get their verdict first (the write happened or not);
 		// savers before the lock or between store and unmark simply die with the process
-		g.drainSavers(true)
+		if g.waiter != 0 {
+			g.drainSavers(false) // a saver blocked on the lock would run on after the crash point: let everything finish
+		} else {
+			g.drainSavers(true)
+		}
 		if len(g.savers) > 0 {
 			g.tags["life.crash-midsave"] = true
 		}
@@ -540,6 +576,7 @@ func (g *genSt) life() {
 		g.do("crash")
 		g.savers = map[int]string{}
 		g.lock = false
+		g.waiter = 0
 	} else {
 		g.drainSavers(false)
 		if len(g.savers) > 0 {
